@@ -1,0 +1,10 @@
+//go:build verif
+// +build verif
+
+package expiration
+
+// VerifNewSkipList exposes the skip-list implementation of List (verification hook).
+func VerifNewSkipList() List { return newSkipList() }
+
+// VerifNewPQList exposes the heap implementation of List (verification hook).
+func VerifNewPQList() List { return newPQList() }
